@@ -261,6 +261,15 @@ let rec hc_loop nd orig octets script =
             | Continue o' -> hc_loop nd orig o' r)
        | Err e -> Err e | Crash c -> Crash c | Hang -> Hang)
 
+(* ---- NFC-DEP exchange against an arbitrary answer stream (Model/DepAny.v): answers  hex | - (empty frame) | N (silence) | T (corrupted), '.' = none ---- *)
+let parse_answers s =
+  if s = "." then [] else
+  List.map (fun a -> if a = "N" then ATimeout else if a = "T" then ACorrupt else AFrame (bytes_of_hex a)) (String.split_on_char ',' s)
+let show_sent l = if l = [] then "." else String.concat "," (List.map (function None -> "N" | Some f -> hex_of_bytes f) l)
+let rec nat_of_int n = if n <= 0 then O else S (nat_of_int (n - 1))
+let mkcfg_ orig b106 did nad miu rwt tick =
+  { c106 = (b106 = "1"); cdid = parse_oz did; cnad = parse_oz nad; cmiu = zi miu; crwt = zi rwt; ctick = zi tick; corig = (orig = "1") }
+
 let handle (w : string list) : string =
   match w with
   | ["depdec"; r; b106; orig; f] ->
@@ -285,6 +294,17 @@ let handle (w : string list) : string =
         (ho_serve (nd_of (parse_table tab)) (orig = "1") (bytes_of_hex hs) (zi miu) (reset = "1") [] (parse_script script)))
   | ["hocl"; orig; tab; script] ->
       with_miss (show_res (fun r -> r) (hc_loop (nd_of (parse_table tab)) (orig = "1") [] (parse_script script)))
+  | ["iexch"; orig; b106; did; nad; miu; rwt; tick; timeout; pni; payload; answers] ->
+      let a = parse_answers answers in
+      let (r, s') = i_exchange (nat_of_int (List.length a + 5)) (mkcfg_ orig b106 did nad miu rwt tick)
+                      { now = Z0; ans = a; sent = [] } (zi pni) (bytes_of_hex payload) (zi timeout) in
+      show_res (fun (d, p) -> hex_of_bytes d ^ " pni=" ^ zs p) r ^ " sent=" ^ show_sent s'.sent
+  | ["texch"; orig; b106; did; nad; miu; rwt; tick; timeout; spni; first; payload; answers] ->
+      let a = parse_answers answers in
+      let (r, s') = t_exchange (nat_of_int (List.length a + 5)) (mkcfg_ orig b106 did nad miu rwt tick)
+                      { now = Z0; ans = a; sent = [] } (parse_oz spni) (if first = "n" then None else Some (bytes_of_hex first))
+                      (bytes_of_hex payload) (zi timeout) in
+      show_res (function None -> "none" | Some (d, p) -> hex_of_bytes d ^ " pni=" ^ zs p) r ^ " sent=" ^ show_sent s'.sent
   | ["pdudec"; d] -> let b = bytes_of_hex d in show_res show_pdu (decode b Z0 (z_of_int (len_z b)))
   | _ -> "?unknown-command"
 
